@@ -85,6 +85,13 @@ def long_cfgs(item):
             yield cfg
 
 
+def as_date(x):
+    """the calendar day an index entry denotes (datetime.date, datetime, Timestamp, tz-aware or not)"""
+    if hasattr(x, 'hour'):
+        return x.date()
+    return x
+
+
 def check(cfg, market, handler):
     obs = sl.run_session(cfg, handler)
     fails = []
@@ -134,7 +141,7 @@ def check(cfg, market, handler):
     if obs.equity and not fails:
         try:
             eq = obs.session.get_equity_curve()
-            idx = list(eq.index)
+            idx = [as_date(i) for i in eq.index]
             if idx != [t.date() for t in want_days] or not all(a == b for a, (_, b) in zip(eq['Equity'].tolist(), obs.equity)):
                 fails.append({'clause': 'C14.equity_table', 'detail': {'index': [str(i) for i in idx][:10]}})
         except Exception as e:  # noqa
@@ -169,19 +176,21 @@ def check(cfg, market, handler):
             tab = None
         if tab is not None:
             want_idx = [t.date() for t in want_days if burn is None or t.date() >= burn.date()]
-            if list(tab.index) != want_idx:
+            if [as_date(i) for i in tab.index] != want_idx:
                 fails.append({'clause': 'C14.allocation_table_dates', 'detail': {'observed': [str(i) for i in tab.index][:10],
                                                                                  'expected': [str(i) for i in want_idx][:10]}})
             else:
-                for d in want_idx:
+                for k, d in enumerate(want_idx):
                     latest = [a for a in obs.allocs if rm.to_py(a['Date']).date() <= d]
-                    row = tab.loc[d]
+                    row = tab.iloc[k]
                     for asset in ASSETS:
                         got = row.get(asset, math.nan)
-                        if not latest:
-                            ok = isinstance(got, float) and math.isnan(got) or (got != got)
+                        if not latest or asset not in latest[-1]:
+                            # no rebalance yet, or the latest one gave this asset no weight at all: the statement does
+                            # not say how "nothing" is written - NaN, 0.0 or a missing column all say it
+                            ok = (got != got) or got == 0.0
                         else:
-                            ok = close(got, latest[-1].get(asset, math.nan))
+                            ok = close(got, latest[-1][asset])
                         if not ok:
                             fails.append({'clause': 'C14.allocation_table_values',
                                           'detail': {'date': str(d), 'asset': asset, 'observed': float(got),
